@@ -10,13 +10,13 @@ def free_port():
     from syslib import port_for
     return port_for('sched%f' % time.time(), 3)
 
-def run(root, tag, scenarios=('scheduler_down', 'no_capacity', 'wrong_token')):
+def run(root, tag, scenarios=('scheduler_down', 'no_capacity', 'wrong_token', 'toolchain_cache_too_small')):
     fails = []; samples = []; n = 0
     for sn in scenarios:
         d = os.path.join(root, sn); shutil.rmtree(d, ignore_errors=True); w = os.path.join(d, 'w'); os.makedirs(w)
         sport = free_port(); sched = None
         conf = os.path.join(d, 'client.conf')
-        open(conf, 'w').write(f'[dist]\nscheduler_url = "http://127.0.0.1:{sport}"\ntoolchains = []\ntoolchain_cache_size = 2000000000\ncache_dir = "{d}/distcache"\n\n[dist.auth]\ntype = "token"\ntoken = "{"wrong" if sn == "wrong_token" else "goodtoken"}"\n')
+        open(conf, 'w').write(f'[dist]\nscheduler_url = "http://127.0.0.1:{sport}"\ntoolchains = []\ntoolchain_cache_size = {65536 if sn == "toolchain_cache_too_small" else 2000000000}\ncache_dir = "{d}/distcache"\n\n[dist.auth]\ntype = "token"\ntoken = "{"wrong" if sn == "wrong_token" else "goodtoken"}"\n')
         if sn != 'scheduler_down':
             sconf = os.path.join(d, 'scheduler.conf')
             open(sconf, 'w').write(f'public_addr = "127.0.0.1:{sport}"\n\n[client_auth]\ntype = "token"\ntoken = "goodtoken"\n\n[server_auth]\ntype = "jwt_hs256"\nsecret_key = "qJPLVoe4L79dg95Z469TUShX3pDAigAvIKAMPOZA_Mc"\n')
@@ -28,7 +28,10 @@ def run(root, tag, scenarios=('scheduler_down', 'no_capacity', 'wrong_token')):
         sc = Sc(os.path.join(d, 'sc'), tag + sn); sc.env['SCCACHE_CONF'] = conf
         sc.start()
         try:
-            for i, body in enumerate(['int a(void){return 1;}\n', 'int b(void){return }\n', 'int a(void){return 1;}\n']):
+            bodies = ['int a(void){return 1;}\n', 'int b(void){return }\n', 'int a(void){return 1;}\n']
+            if sn == 'toolchain_cache_too_small': bodies = ['int a(void){return 1;}\n', 'int c(void){return 2;}\n', 'int a(void){return 1;}\n', 'RESTART', 'int d(void){return 4;}\n', 'int a(void){return 1;}\n']
+            for i, body in enumerate(bodies):
+                if body == 'RESTART': sc.stop(); sc.start(); samples.append(f'{sn}: sccache server restarted'); continue
                 src = f't{i}.c'; open(os.path.join(w, src), 'w').write(body)
                 t0 = time.time(); r = sc.compile(['/usr/bin/gcc', '-c', src, '-o', src + '.o'], w, timeout=300); dt = time.time() - t0
                 got = (r.returncode, file_state(os.path.join(w, src + '.o')) and file_state(os.path.join(w, src + '.o'))[0])
@@ -41,6 +44,11 @@ def run(root, tag, scenarios=('scheduler_down', 'no_capacity', 'wrong_token')):
                     # the one class of failure that is reported instead of falling back; never exit 0 without the output
                     if got[0] == 0 and got != want: fails.append({'kind': 'exit0_without_correct_output', 'detail': line, 'ops': [line]})
                     if got[0] != 0 and want[0] == 0 and got[1] is not None: fails.append({'kind': 'partial_output_after_dist_error', 'detail': line, 'ops': [line]})
+                elif sn == 'toolchain_cache_too_small':
+                    # the other failure that is reported instead of falling back: the packaged toolchain does not fit the local toolchain cache.
+                    # Every request says so with a non-zero status (not only the first one) and leaves nothing behind
+                    if got[0] == 0: fails.append({'kind': 'toolchain_cache_too_small_not_reported', 'detail': line, 'ops': [l for l in samples if l.startswith(sn)]})
+                    elif got[1] is not None: fails.append({'kind': 'partial_output_after_dist_error', 'detail': line, 'ops': [line]})
                 elif got != want:
                     fails.append({'kind': 'dist_fallback_differs_from_direct', 'detail': line, 'ops': [line]})
             st = sc.stats() or {}
